@@ -760,6 +760,8 @@ evrpc_schedule_request_closure(void *arg, enum EVRPC_HOOK_RESULT hook_res)
 	return;
 
 error:
+	/* the rpc timeout may already be running; it must not outlive ctx */
+	evtimer_del(&ctx->ev_timeout);
 	memset(&status, 0, sizeof(status));
 	status.error = EVRPC_STATUS_ERR_UNSTARTED;
 	(*ctx->cb)(&status, ctx->request, ctx->reply, ctx->cb_arg);
